@@ -303,6 +303,42 @@ fn exec_inner(st: &mut St, cmd: &str) -> String {
             }
         }
         "valid" => cvec(st.q.as_ref().expect("no qreg").verif_psi()),
+        "bornstat" => {
+            // bornstat <mask> <shots>: measure clones of the current register
+            let mask: usize = toks[1].parse().unwrap();
+            let shots: usize = toks[2].parse().unwrap();
+            let q = st.q.as_ref().expect("no qreg");
+            let mut counts: std::collections::BTreeMap<usize, usize> = Default::default();
+            for _ in 0..shots {
+                let mut c = q.clone();
+                let v = c.measure_mask(mask).get();
+                *counts.entry(v).or_default() += 1;
+            }
+            let mut o = format!("{}", counts.len());
+            for (v, k) in counts {
+                o.push_str(&format!(" {v} {k}"));
+            }
+            o
+        }
+        "samplestat" => {
+            // samplestat <count> <reps>: cell-wise mean and variance of sample_all
+            let count: usize = toks[1].parse().unwrap();
+            let reps: usize = toks[2].parse().unwrap();
+            let q = st.q.as_ref().expect("no qreg");
+            let cells = q.get_probabilities().len();
+            let mut sum = vec![0f64; cells];
+            let mut sq = vec![0f64; cells];
+            for _ in 0..reps {
+                let h = q.sample_all(count);
+                for (i, x) in h.iter().enumerate() {
+                    sum[i] += *x as f64;
+                    sq[i] += (*x as f64) * (*x as f64);
+                }
+            }
+            let mean: Vec<f64> = sum.iter().map(|s| s / reps as f64).collect();
+            let var: Vec<f64> = sq.iter().zip(mean.iter()).map(|(s, m)| s / reps as f64 - m * m).collect();
+            format!("{} {}", fvec(&mean), fvec(&var))
+        }
         "qvreg" => vobs(&st.q.as_ref().expect("no qreg").get_vreg()),
         "qvregby" => match st.q.as_ref().expect("no qreg").get_vreg_by(toks[1].parse().unwrap()) {
             Some(v) => format!("some {}", vobs(&v)),
@@ -1043,6 +1079,25 @@ fn gen_meas_case(r: &mut Rng, max_n: usize, max_thr: usize, stats: &mut HashMap<
     (format!("n={n} mask={m}"), cmds)
 }
 
+/// C07 (statistics): Born frequencies of measure_mask and moments of sample_all.
+fn gen_born_case(r: &mut Rng, max_thr: usize, shots: usize, stats: &mut HashMap<String, usize>) -> (String, Vec<String>) {
+    let n = r.range(1, 4);
+    let all = (1usize << n) - 1;
+    let mut cmds = reg_cmds(r, n, max_thr, false);
+    if r.chance(1, 2) {
+        cmds.push(format!("op {}", ops::prog_text(&unitary_prog(r, n))));
+        cmds.push("apply".into());
+    }
+    cmds.push("probs".into());
+    let m = if r.chance(1, 3) { all } else { r.submask(all) | r.kbits(all, 1).unwrap() };
+    cmds.push(format!("bornstat {m} {shots}"));
+    if r.chance(1, 2) {
+        cmds.push(format!("samplestat {} {}", 20000 + r.below(20000), 200));
+    }
+    *stats.entry(format!("n.{n}")).or_default() += 1;
+    (format!("n={n} mask={m}"), cmds)
+}
+
 /// C16: histograms of sparse states, all shot counts.
 fn gen_sample_case(r: &mut Rng, max_n: usize, max_thr: usize, stats: &mut HashMap<String, usize>) -> (String, Vec<String>) {
     let n = r.range(0, max_n);
@@ -1586,6 +1641,7 @@ pub fn run(suite: &str, seed: u64, count: usize, kv: &HashMap<String, String>, t
             "hist" => gen_hist_case(&mut r, max_n, max_thr, kv.get("steps").and_then(|s| s.parse().ok()).unwrap_or(12), &mut stats),
             "meas" => gen_meas_case(&mut r, max_n, max_thr, &mut stats),
             "sample" => gen_sample_case(&mut r, max_n, max_thr, &mut stats),
+            "born" => gen_born_case(&mut r, max_thr, kv.get("shots").and_then(|s| s.parse().ok()).unwrap_or(4096), &mut stats),
             "bits" => gen_bits_case(&mut r, &mut stats),
             "c08" => gen_c08_case(&mut r, max_n, kv.get("big").map(|s| s == "1").unwrap_or(false), &mut stats),
             "c19" => gen_c19_case(&mut r, &mut stats),
